@@ -8,18 +8,40 @@ from . import app_contracts as ac
 
 PROP = "C04"
 LEVEL = 'proof'
-EXPLANATION = ("Deductive: Command.handle is verified against the status contract (0 iff the handler's value is false-y, else int() of it clamped into 1..255, interrupt -> 1; result always in 0..255) for every kind of handler value; exception_to_exit_code yields 1..255; ConsoleApplication.run is verified structurally: with catching enabled every Exception / KeyboardInterrupt raised by the io factory, the resolution or the handler reaches a handler clause, nothing escapes, the status is in range.  Bounded: all handler outcomes of the property x verbosity x listener behaviours through the real run(), report printed, handler invoked exactly once.")
-LEVEL_NOTE = ('assumes: Command._do_handle records the handler outcome in a ghost field (handler protocol, decided by the bounded tier); ExceptionTrace.render and the indent scope do not raise (decided under C20 / C11); resolve_command returns a command or raises a library error; the io factory is an arbitrary callable that returns an IO or raises; SystemExit/GeneratorExit out of scope')
+EXPLANATION = ("Deductive: Command.handle is verified against the status contract (0 iff the handler's value is false-y, else int() of it clamped into 1..255, interrupt -> 1; result always in 0..255) for every kind of handler value; exception_to_exit_code yields 1..255; ConsoleApplication.run is verified structurally: with catching enabled every Exception / KeyboardInterrupt raised by the io factory, the resolution or the handler reaches a handler clause, nothing escapes, the status is in range; Command._do_handle (variant `once`) invokes the handler -- an opaque callable found with getattr, counting its invocations in a ghost -- exactly once unless a pre-handle listener marked the event handled (a stopped propagation alone does not replace the handler).  Bounded: all handler outcomes of the property x verbosity x listener behaviours through the real run(), report printed, handler invoked exactly once.")
+LEVEL_NOTE = ('assumes: Command._do_handle records the handler outcome in a ghost field (main contract, assumed; the handler-once variant is verified against an opaque handler / listener model); ExceptionTrace.render and the indent scope do not raise (decided under C20 / C11); resolve_command returns a command or raises a library error; the io factory is an arbitrary callable that returns an IO or raises; SystemExit/GeneratorExit out of scope')
 TARGETS = [
     ac.M_CMD + ":Command.handle",
     ac.M_APP + ":ConsoleApplication.exception_to_exit_code",
     ac.M_APP + ":ConsoleApplication.run",
+    ac.DO_HANDLE_ONCE,
 ]
 LEMMAS = []
 
 
 def _opaque(E, st, fn, args, kwargs):
-    """the io factory: an arbitrary callable that returns an IO or raises"""
+    """the io factory: an arbitrary callable that returns an IO or raises;
+    the command handler (found with getattr(handler, handler_method)): an arbitrary callable of (args, io, command) that
+    returns any value or raises, and counts its invocation in the command's ghost g_handler_calls"""
+    from pyvc.kinds import parse_kind, alts, INT
+    if isinstance(fn.t, tuple) and fn.t[0] == "opaque" and isinstance(fn.t[1], tuple) and fn.t[1][0] == "getattr":
+        if len(args) != 3 or args[2].kind.tag != "ref":
+            from pyvc.state import Unsupported
+            raise Unsupported("handler call with unexpected arguments")
+        cmd = args[2]
+        n = E._read_alt(st, cmd.t, "g_handler_calls", INT)
+        s1 = E.write_field(st, cmd, "g_handler_calls", INT, V(INT, n.t + 1))
+        outs = []
+        for k in alts(parse_kind(ac.STATUS)):
+            v = E.fresh(k, "handler_result")
+            s2 = E.assume_valid_ref(s1, v)
+            outs.append(Out("ok", E.write_field(s2, cmd, "g_status", parse_kind(ac.STATUS), v), v))
+        s3, e = E.mk_exc(s1, "Exception")
+        e.aux["abstract"] = True
+        s4, k2 = E.mk_exc(s1, "KeyboardInterrupt")
+        E.trusted.add("opaque callable (command handler): returns any value or raises; counts its invocations in the ghost "
+                      "g_handler_calls of the command it is given and touches nothing else of the library")
+        return outs + [Out("raise", s3, e), Out("raise", s4, k2)]
     s2, r = E.new_ref(st)
     io = V(Kind("ref", "IO"), r)
     tc = E.type_constraint(io)
